@@ -30,6 +30,10 @@ from ..poly import Sym
 from ..model import AnalysisError
 from .c07 import reply_ordinals
 
+# loops the engines summarise on purpose (retry / pause / enumeration loops are judged by the
+# loop rules of this check, not by unrolling)
+EXPECTED_GAPS = {('loop', '*')}
+
 STALE = Opaque('VERSION_OF_AN_EARLIER_CONNECTION', (), 'version')
 PROBE = Opaque('encode', (Str.lit('v\r'),), 'bytes')
 MARKER = 'Firmware Version '
@@ -104,6 +108,23 @@ def pipeline(v):
             ops[-1] = '[1]'
             ops.append('split(%r,1)' % v.args[1].text())
             v = v.args[0]
+        elif isinstance(v, Opaque) and v.label == 'slice' and v.args[2] == NONE and \
+                v.args[3] == NONE and isinstance(v.args[1], Opaque) and \
+                v.args[1].label == 'binop:Add' and len(v.args[1].args) == 2:
+            # s[s.find(m) + len(m):] is s.split(m, 1)[1] whenever m occurs in s (the code must
+            # test find() < 0 for "no version", like the length test of the split form)
+            a, b = v.args[1].args
+            if isinstance(b, Opaque):
+                a, b = b, a
+            if isinstance(a, Opaque) and a.label == 'm:find' and len(a.args) == 2 and \
+                    a.args[0] == v.args[0] and isinstance(a.args[1], Str) and a.args[1].is_lit() \
+                    and isinstance(b, Sym) and b.is_const() and \
+                    b.const_value() == len(a.args[1].text()):
+                ops.append('[1]')
+                ops.append('split(%r,1)' % a.args[1].text())
+                v = v.args[0]
+            else:
+                return ops, v
         elif isinstance(v, Opaque) and v.label == 'm:split' and len(v.args) >= 2:
             ops.append('split(%s)' % ','.join(
                 repr(a.text()) if isinstance(a, Str) and a.is_lit() else
@@ -371,6 +392,11 @@ def ebb3_pipeline(ck, eng):
         if isinstance(v, Opaque) and v.label == 'parse':
             ops, src = pipeline(v)
             pipes.add(tuple(ops))
+            if src != reply and 'reply#0' in repr(src):
+                # derived from the reply by an operation the pipeline reader does not know
+                raise AnalysisError('%s derives the version from the reply through %r; the '
+                                    'pipeline rule does not know this operation'
+                                    % (fn.qualname, src))
             ck.ob('C15-D1-pipeline-source', fn.qualname, src == reply,
                   '%s does not parse the handshake reply it was given' % fn.qualname, fn.loc(),
                   key=fn.qualname + '::source')
@@ -440,6 +466,11 @@ def run(ck, prog, tier):
     ck.assumptions = ['a device is "an EBB" iff a probe reply contains "EBB" (the code\'s own test)']
     base, cls, family = most_derived(prog)
     eng = Engine(prog, cls)
+    # the legacy layer keeps no connection object: its answer must come from the board now on the
+    # port, not from module state filled by an earlier call (a stale answer gates the wrong board)
+    from .. import purity
+    purity.check(ck, prog, ['ebb_serial.min_version'], 'C15-R-fresh-version',
+                 note='the version must be read from the board on the port at the time of the call')
     lp = check_legacy_min_version(ck, prog)
     check_ebb3_min_version(ck, eng)
     ep = ebb3_pipeline(ck, eng)
